@@ -94,8 +94,6 @@ Proof. split; reflexivity. Qed.
 (* ---------- generated constants the statements rely on ---------- *)
 Lemma coin_is_1e8 : RPC_COIN = SATOSHI_PER_COIN.
 Proof. reflexivity. Qed.
-Lemma parse_float_decimal : RPC_PARSE_FLOAT_IS_DECIMAL = true.
-Proof. reflexivity. Qed.
 Lemma catch_codes_registered :
   In RPC_CATCH_getblockhash RPC_SUBCLS_CODES /\ In RPC_CATCH_getblock RPC_SUBCLS_CODES /\
   In RPC_CATCH_getblockheader RPC_SUBCLS_CODES /\ In RPC_CATCH_getrawtransaction RPC_SUBCLS_CODES.
